@@ -39,6 +39,37 @@ STD_RULES = {
 }
 
 
+def _blank_comments(text):
+    """text with // and /* */ comments replaced by spaces (same length; string literals kept)"""
+    out = list(text)
+    i, n = 0, len(text)
+    while i < n:
+        c = text[i]
+        if text.startswith('//', i):
+            j = text.find('\n', i)
+            j = n if j < 0 else j
+            for k in range(i, j):
+                out[k] = ' '
+            i = j
+        elif text.startswith('/*', i):
+            j = text.find('*/', i + 2)
+            j = n if j < 0 else j + 2
+            for k in range(i, j):
+                if text[k] != '\n':
+                    out[k] = ' '
+            i = j
+        elif c == '"' or c == "'":
+            j = i + 1
+            while j < n and text[j] != c:
+                if text[j] == '\\':
+                    j += 1
+                j += 1
+            i = j + 1
+        else:
+            i += 1
+    return ''.join(out)
+
+
 def _find_class(text, name):
     m = inj._mask(text)
     for mo in re.finditer(r'\b(struct|class)\s+' + re.escape(name) + r'\b([^;{]*)\{', m):
@@ -52,6 +83,7 @@ def _class_members(text, name):
     """Yield (decl_text, init_text|None) for data members of class `name`, in order."""
     _, bo, bc = _find_class(text, name)
     m = inj._mask(text)
+    text = _blank_comments(text)      # keeps offsets identical to the masked text
     i = bo + 1
     out = []
     start = i
@@ -207,20 +239,14 @@ def _op_func(repo, p, struct_members):
         base, limit = cbo + 1, cbc
     region = src[base:limit]
     try:
-        bo, bc = inj.find_function(region, name, p.get('occurrence', 0))
+        npos, popen, bo, bc = inj.find_function_ex(region, name, p.get('occurrence', 0))
     except inj.InjectError as e:
         raise ExtractError(str(e))
     bo += base
     bc += base
     m = inj._mask(src)
-    # locate the name token before the parameter list
-    simple = name.split('::')[-1]
-    idx = None
-    for mo in re.finditer(r'(?<![\w.>])' + re.escape(name) + r'\s*\(', m[base:bo]):
-        idx = base + mo.start()
-        pidx = base + mo.end() - 1
-    if idx is None:
-        raise ExtractError('name of %s not found before its body' % name)
+    idx = base + npos
+    pidx = base + popen
     pclose = inj._match(m, pidx, '(', ')')
     ss = _sig_start(m, idx, base)
     ret = src[ss:idx].strip()
@@ -231,6 +257,39 @@ def _op_func(repo, p, struct_members):
     body = src[bo:bc + 1]
     is_ctor = (ret == '' and not p.get('ret'))
     fired = []
+    # R3b: constructor mem-initialiser list -> assignments at the top of the body (before the R6/R2 passes)
+    mafter = m[pclose + 1:bo]
+    ci = mafter.find(':')
+    if is_ctor and ci >= 0 and mafter[ci:ci + 2] != '::':
+        lst = src[pclose + 1 + ci + 1:bo]
+        mlst = mafter[ci + 1:]
+        items, depth, start = [], 0, 0
+        for k, ch in enumerate(mlst):
+            if ch in '({':
+                depth += 1
+            elif ch in ')}':
+                depth -= 1
+            elif ch == ',' and depth == 0:
+                items.append(lst[start:k])
+                start = k + 1
+        items.append(lst[start:])
+        stmts = []
+        for it in items:
+            it = it.strip()
+            if not it:
+                continue
+            mo = re.match(r'^([A-Za-z_]\w*)\s*[({](.*)[)}]$', it, re.S)
+            if not mo:
+                raise ExtractError('%s: cannot parse mem-initialiser %r' % (name, it))
+            mem, expr = mo.group(1), mo.group(2).strip()
+            if p.get('delegating') and mem == p['delegating'].get('name'):
+                stmts.append('%s(self%s);' % (p['delegating']['as'], (', ' + expr) if expr else ''))
+            elif expr == '':
+                stmts.append('memset(&%s, 0, sizeof(%s));' % (mem, mem))
+            else:
+                stmts.append('%s = %s;' % (mem, expr))
+        body = '{\n    /* cxx2c R3b: mem-initialiser list */ ' + ' '.join(stmts) + body[1:]
+        fired.append({'rule': 'R3b mem-initialiser list', 'fired': len(stmts)})
     tp = p.get('tparams')
     ret, params, body = _subst(ret, tp), _subst(params, tp), _subst(body, tp)
     # R6 references -> pointers
